@@ -134,6 +134,11 @@ class SymFactory:
     def seeded_rng(self, name):
         raise Unsupported('native-only input builder (generated documents): this contract is a bounded stand-in')
 
+    def ext(self, tag, native_builder=None):
+        """an external value (path, file, document) the proof does not look into; natively built by native_builder()"""
+        from .interp import Opaque
+        return Opaque(tag)
+
     def enum_in(self, name, cls, allowed):
         v = self._reg(name, z3.Int(name))
         ms = self.I.enum_members(cls)
@@ -360,6 +365,9 @@ class ConcreteFactory:
     def assume(self, cond):
         if not cond:
             self.rejected = True
+
+    def ext(self, tag, native_builder=None):
+        return native_builder() if native_builder is not None else None
 
     def seeded_rng(self, name):
         """a reproducible random generator for native-only builders (document generators): its seed is an input"""
